@@ -145,6 +145,100 @@ Theorem c18_swarm_history_within_budget :
 Proof. exact swarm_history_proof. Qed.
 Print Assumptions c18_swarm_history_within_budget.
 
+(* ---- regenerative swarm against workers that own mutable state ---------- *)
+
+(* The factory and the workers are ONE state machine over an ARBITRARY state
+   type Env: a step may do anything to the worker's own record (append one
+   entry to its WorkerMemory, several, none, trim it), the factory may hand back
+   a pooled / restored worker that already has history, workers may share
+   state.  summarize / memlen are what the swarm READS from that record
+   (summarizer(worker.memory) -> the next factory call's hints of an arbitrary
+   type Hint; len(worker.memory.task_history)).  e: ANY environment state at
+   entry, w0: ANY value of the swarm's cumulative worker counter.
+
+   Whatever the environment does: at most max_regenerations + 1 factory
+   invocations, numbered w0, w0+1, ... *)
+Theorem c18_swarm_stateful_workers_le :
+  forall (Env Hint : Type)
+         (spawn : Env -> nat -> Hint -> Env * bool) (wstepf : Env -> nat -> Env * wstep)
+         (summarize : Env -> nat -> Hint) (memlen : Env -> nat -> nat) (h0 : Hint) (thr : Q)
+         (max_regenerations max_steps : Z) (w0 : nat) (e : Env),
+    let r := snd (fst (supervise_e spawn wstepf summarize memlen h0 thr
+                                   max_regenerations max_steps w0 e)) in
+    length (s_workers r) <= Z.to_nat (max_regenerations + 1) /\
+    ((0 <= max_regenerations)%Z -> (Z.of_nat (length (s_workers r)) <= max_regenerations + 1)%Z) /\
+    ((max_regenerations < 0)%Z -> s_workers r = []) /\
+    (forall i w, nth_error (s_workers r) i = Some w -> w_idx w = w0 + i).
+Proof. exact swarm_e_workers_le_proof. Qed.
+Print Assumptions c18_swarm_stateful_workers_le.
+
+(* ... and at most max_steps_per_worker worker.step invocations on each worker:
+   the step budget is the swarm's own, nothing a worker does to its record
+   (or reports about it) can extend it *)
+Theorem c18_swarm_stateful_steps_le :
+  forall (Env Hint : Type)
+         (spawn : Env -> nat -> Hint -> Env * bool) (wstepf : Env -> nat -> Env * wstep)
+         (summarize : Env -> nat -> Hint) (memlen : Env -> nat -> nat) (h0 : Hint) (thr : Q)
+         (max_regenerations max_steps : Z) (w0 : nat) (e : Env) (w : wrec),
+    In w (s_workers (snd (fst (supervise_e spawn wstepf summarize memlen h0 thr
+                                           max_regenerations max_steps w0 e)))) ->
+    w_steps w <= Z.to_nat max_steps /\
+    ((0 <= max_steps)%Z -> (Z.of_nat (w_steps w) <= max_steps)%Z) /\
+    ((max_steps <= 0)%Z -> w_steps w = 0).
+Proof. exact swarm_e_steps_le_proof. Qed.
+Print Assumptions c18_swarm_stateful_steps_le.
+
+(* ... and success is reported only for the marker-carrying output of the last
+   step of the last worker (a worker the factory really returned); no output otherwise *)
+Theorem c18_swarm_stateful_success_has_marker :
+  forall (Env Hint : Type)
+         (spawn : Env -> nat -> Hint -> Env * bool) (wstepf : Env -> nat -> Env * wstep)
+         (summarize : Env -> nat -> Hint) (memlen : Env -> nat -> nat) (h0 : Hint) (thr : Q)
+         (max_regenerations max_steps : Z) (w0 : nat) (e : Env),
+    let r := snd (fst (supervise_e spawn wstepf summarize memlen h0 thr
+                                   max_regenerations max_steps w0 e)) in
+    (s_success r = true ->
+       exists pre w j o es h e1,
+         s_workers r = pre ++ [mkW w (S j) (WSuccess o)] /\ w = w0 + length pre /\
+         snd (spawn es w h) = true /\ snd (wstepf e1 w) = WOut o true /\
+         s_output r = Some o /\ s_final_worker r = Some w /\ s_returned r = true) /\
+    (s_success r = false -> s_output r = None).
+Proof. exact swarm_e_success_has_marker_proof. Qed.
+Print Assumptions c18_swarm_stateful_success_has_marker.
+
+(* the same for every call of any number of consecutive supervise() calls on ONE
+   swarm, the environment going on from whatever state the previous call left
+   (so a later call may meet workers, pools, memories the earlier calls used) *)
+Theorem c18_swarm_stateful_history_within_budget :
+  forall (Env Hint : Type)
+         (spawn : Env -> nat -> Hint -> Env * bool) (wstepf : Env -> nat -> Env * wstep)
+         (summarize : Env -> nat -> Hint) (memlen : Env -> nat -> nat) (h0 : Hint) (thr : Q)
+         (max_regenerations max_steps : Z) (n w0 : nat) (e : Env)
+         (w0' : nat) (r : swarm_result) (ws : list (wrece Hint)),
+    In (w0', r, ws) (swarm_runs_e spawn wstepf summarize memlen h0 thr
+                                  max_regenerations max_steps n w0 e) ->
+    s_workers r = map we_rec ws /\
+    length (s_workers r) <= Z.to_nat (max_regenerations + 1) /\
+    (forall i w, nth_error (s_workers r) i = Some w -> w_idx w = w0' + i) /\
+    (forall w, In w (s_workers r) -> w_steps w <= Z.to_nat max_steps) /\
+    (s_success r = true ->
+       exists w j o e1, In (mkW w (S j) (WSuccess o)) (s_workers r) /\
+                        snd (wstepf e1 w) = WOut o true /\ s_output r = Some o) /\
+    (s_success r = false -> s_output r = None).
+Proof. exact swarm_e_history_proof. Qed.
+Print Assumptions c18_swarm_stateful_history_within_budget.
+
+(* the stateless model above (c18_swarm_workers_le ... c18_swarm_history_within_budget)
+   is the instance "environment = step index of the current worker" of the stateful one *)
+Theorem c18_swarm_stateless_is_instance :
+  forall (factory_ok : nat -> bool) (beh : nat -> nat -> wstep) (thr : Q)
+         (max_regenerations max_steps : Z) (e : nat),
+    snd (fst (supervise_e (sl_spawn factory_ok) (sl_step beh) sl_summ sl_mem tt thr
+                          max_regenerations max_steps 0 e)) =
+    supervise factory_ok beh thr max_regenerations max_steps.
+Proof. exact swarm_stateless_instance_proof. Qed.
+Print Assumptions c18_swarm_stateless_is_instance.
+
 (* ---- LLM tool loop ----------------------------------------------------- *)
 
 (* Environment: provider, plain completion and tools are state machines over an
